@@ -882,6 +882,16 @@ def find_witness(pid, deep=True):
         hits = [l for l in lines if l.startswith("REPLAY-VIOLATION") and "property=C09 " in l]
         if rc == 1 and hits:
             res = ({"kind": "package_faults"}, hits, "fault enumeration on the serialized package (every single-byte fault, truncation, checksum-prefix pairs)")
+    if res is None and pid in ("C03", "C12"):
+        # forced schedule amend(find) | match | amend(remove..push) over a grid of order kinds and quantities (sub-second)
+        sp = os.path.join(REPLAYS, "search-%s.json" % pid)
+        json.dump({"kind": "amend_race_sweep", "property": pid}, open(sp, "w"))
+        rc, lines, err = run_replay(sp, timeout_s=60)
+        _WITNESS_STATS[pid] = (err or "").strip().split("\n")[-1][:200]
+        found = [l for l in lines if l.startswith("REPLAY-FOUND ")]
+        hits = [l for l in lines if l.startswith("REPLAY-VIOLATION") and ("property=%s " % pid) in l and not any(("clause=%s " % c) in l for c in excl)]
+        if rc == 1 and found and hits:
+            res = (json.loads(found[0][len("REPLAY-FOUND "):]), hits, "forced-schedule sweep through the pause hook (12 order kinds x 7 amendment targets x 9 racing match sizes)")
     if res is None and pid == "C14":
         sp = os.path.join(REPLAYS, "search-%s.json" % pid)
         json.dump({"kind": "uuid_contract"}, open(sp, "w"))
@@ -889,7 +899,7 @@ def find_witness(pid, deep=True):
         hits = [l for l in lines if l.startswith("REPLAY-VIOLATION") and "property=C14 " in l]
         if rc == 1 and hits:
             res = ({"kind": "uuid_contract"}, hits, "executable form of the next() contract at boundary counter values")
-    if res is None and pid not in ("C09", "C14") and deep:
+    if res is None and pid not in ("C09", "C14", "C03", "C12") and deep:
         sp = os.path.join(REPLAYS, "search-%s.json" % pid)
         q = {"kind": "search", "property": pid, "depth": 4, "budget_ms": 25000, "exclude": excl}
         # clauses that are the executable form of the PROVED contracts (not of the ideal property) count only
